@@ -44,6 +44,11 @@ def _seal(root, tree_src, seq, root_arg=None, cwd=None, lseed=None, keep_links=F
     exits = []
     res = None
     for sub, argv_tail in seq:
+        if sub == "@mv":
+            for a, b in argv_tail:
+                os.makedirs(os.path.dirname(os.path.join(root, b)), exist_ok=True)
+                os.rename(os.path.join(root, a), os.path.join(root, b))
+            continue
         world.set_mtimes(root, fixed=MT)
         clock.freeze(NOW)
         listing.set_seed(lseed)
@@ -92,6 +97,17 @@ def run_case(cs):
         par = rng.choice([""] + [k + "/" for k, v in tree.items() if v is None])
         tree[par + "Caf\u00e9 clip.mov"] = rng.randbytes(4)
         tree[par + "Cafe\u0301 clip.mov"] = rng.randbytes(5)
+    dup_names = []
+    if rng.random() < 0.15:
+        # identical copies of one file under several names (camera card duplicates, the same slate in every reel)
+        data = b"same" + rng.randbytes(6)
+        for i in range(rng.randint(2, 4)):
+            nm = rng.choice(["", "", "dup dir/"]) + "copy%d-%s.bin" % (i, world.gen_name(rng, "plain", ext=False))
+            if nm not in tree:
+                if "/" in nm:
+                    tree["dup dir"] = None
+                tree[nm] = data
+                dup_names.append(nm)
     # fodder that user patterns would match
     pats = rng.sample(["*.tmp", "scratch*", "[xy]*"], rng.choice([0, 1, 1, 2]))
     if pats and rng.random() < 0.7:
@@ -129,6 +145,12 @@ def run_case(cs):
     seq.append((".", tail))
     if rng.random() < 0.4:
         seq.append((".", world.fmt_args(world.gen_formats(rng))))
+    if dup_names:
+        # the copies are given other names, then a generation with rename detection: which former path each of them
+        # gets must not depend on where the tree lies
+        seq.append(("@mv", [(a, "moved-%d-" % i + os.path.basename(a) if i % 2 else "zz new folder/" + os.path.basename(a) + ".renamed") for i, a in enumerate(dup_names)]))
+        seq.append((".", ["-dr"] + world.fmt_args(fm)))
+        cs.count("sequences_with_rename_detection_over_identical_files")
     base_root = os.path.join(d, "vf-base", "root")
     bex, bfiles, bres = _seal(base_root, src, seq, keep_links=hard_links)
     if bres.internal or any(e != 0 for e in bex):
@@ -268,6 +290,11 @@ def _seal_variant(root, src, seq, root_arg, cwd, lseed):
         exits = []
         res = None
         for sub, tail in seq:
+            if sub == "@mv":
+                for a, b in tail:
+                    os.makedirs(os.path.dirname(os.path.join(root, b)), exist_ok=True)
+                    os.rename(os.path.join(root, a), os.path.join(root, b))
+                continue
             world.set_mtimes(root, fixed=MT)
             clock.freeze(NOW)
             listing.set_seed(lseed)
